@@ -22,7 +22,7 @@ EXTRA = {"C02-B": ["C01", "C08"], "C08-A": ["C01"], "C12-A": [], "C05-A": ["C09"
          "C13-L": ["C07", "C08"], "C11-K": ["C17"], "C16-L": ["C06", "C07"], "C17-K": ["C19"], "C09-L": ["C11"], "C12-K": ["C16"],
          # wave 7
          "C02-N": ["C08"], "C04-N": ["C02"], "C20-M": ["C02"], "C13-N": ["C09"], "C15-N": ["C03"], "C19-M": ["C16"], "C16-N": ["C07", "C06"], "C05-N": ["C15"],
-         "C17-N": ["C19"], "C12-N": ["C10"]}
+         "C17-N": ["C19"], "C12-N": ["C10"], "C20-N": ["C15"]}
 tier = sys.argv[1] if len(sys.argv) > 1 else "quick"
 ids = sys.argv[2:] or sorted(os.path.basename(d) for d in glob.glob(VERIF + "/seeded/C*"))
 manifest = json.load(open(VERIF + "/MANIFEST.json"))
